@@ -19,6 +19,13 @@ for d in sorted(Path(__file__).resolve().parent.parent.joinpath("seeded").iterdi
     if er and not er[0].get("caught_by"):
         hist = "(first missed; caught after the check was strengthened)" if prop in caught else "(missed)"
     rows.append(f"| {j['id']} | {prop} | {j['needs'][:170]} | {'yes' if j.get('confirmed') else 'NO'} | {how} {hist} |")
-print("| id | property | what it needs to manifest | confirmed | caught by (clauses) |")
-print("|---|---|---|---|---|")
-print("\n".join(rows))
+table = "\n".join(["| id | property | what it needs to manifest | confirmed | caught by (clauses) |", "|---|---|---|---|---|"] + rows)
+import sys
+if len(sys.argv) > 2 and sys.argv[1] == "--into":   # replace the text between the markers of the given file
+    f = Path(sys.argv[2])
+    t = f.read_text()
+    b, e = "<!-- SEEDED-TABLE-BEGIN -->", "<!-- SEEDED-TABLE-END -->"
+    i, k = t.index(b) + len(b), t.index(e)
+    f.write_text(t[:i] + "\n" + table + "\n" + t[k:])
+else:
+    print(table)
